@@ -320,6 +320,110 @@ def _zi(x):
     raise Unsupported("int operand %r" % (type(x),))
 
 
+# ------------------------------------------------------------------------------------------------ IEEE doubles
+class SFloat:
+    """proxy for a Python float whose value is a z3 Float64 term (IEEE-754 binary64, round-to-nearest-even, as CPython).
+    Only what date code does with such values: + - * / with floats/ints, comparisons (fork), int() (truncation)."""
+    F = z3.Float64()
+
+    def __init__(self, z):
+        self.z = z
+
+    @classmethod
+    def lift(cls, x):
+        if isinstance(x, SFloat):
+            return x.z
+        if isinstance(x, bool):
+            x = int(x)
+        if isinstance(x, (int, float)):
+            return z3.FPVal(float(x), cls.F)
+        if isinstance(x, SInt):
+            return cls.from_int_term(x.z, 64)
+        raise Unsupported("float operand %r" % (type(x),))
+
+    @classmethod
+    def from_int_term(cls, n, bits):
+        """exact for |n| < 2**53 (callers bound n); bits: width of the two's-complement encoding used"""
+        return z3.fpSignedToFP(z3.RNE(), z3.Int2BV(n, bits), cls.F)
+
+    @classmethod
+    def from_decimal(cls, n, k, ndigits):
+        """the double nearest to n / 10**k, n a non-negative Int term of at most ndigits (<= 15) decimal digits: both
+        operands are exactly representable, and IEEE division is correctly rounded, like CPython's float(str)"""
+        if ndigits > 15:
+            raise Unsupported("float() of more than 15 symbolic digits")
+        bits = max(8, (10 ** ndigits).bit_length() + 2)
+        x = cls.from_int_term(n, bits)
+        if k:
+            x = z3.fpDiv(z3.RNE(), x, z3.FPVal(float(10 ** k), cls.F))
+        return cls(x)
+
+    def _bin(self, o, op, swap=False):
+        try:
+            b = SFloat.lift(o)
+        except Unsupported:
+            return NotImplemented
+        a = self.z
+        if swap:
+            a, b = b, a
+        return SFloat(op(z3.RNE(), a, b))
+
+    def __add__(self, o): return self._bin(o, z3.fpAdd)
+    def __radd__(self, o): return self._bin(o, z3.fpAdd, True)
+    def __sub__(self, o): return self._bin(o, z3.fpSub)
+    def __rsub__(self, o): return self._bin(o, z3.fpSub, True)
+    def __mul__(self, o): return self._bin(o, z3.fpMul)
+    def __rmul__(self, o): return self._bin(o, z3.fpMul, True)
+
+    def __truediv__(self, o):
+        b = SFloat.lift(o)
+        if branch(z3.fpIsZero(b)):
+            raise ZeroDivisionError("float division by zero")
+        return SFloat(z3.fpDiv(z3.RNE(), self.z, b))
+
+    def __rtruediv__(self, o):
+        if branch(z3.fpIsZero(self.z)):
+            raise ZeroDivisionError("float division by zero")
+        return SFloat(z3.fpDiv(z3.RNE(), SFloat.lift(o), self.z))
+
+    def __neg__(self): return SFloat(z3.fpNeg(self.z))
+    def __abs__(self): return SFloat(z3.fpAbs(self.z))
+    def __pos__(self): return self
+
+    def _cmp(self, o, op):
+        return branch(op(self.z, SFloat.lift(o)))
+
+    def __lt__(self, o): return self._cmp(o, z3.fpLT)
+    def __le__(self, o): return self._cmp(o, z3.fpLEQ)
+    def __gt__(self, o): return self._cmp(o, z3.fpGT)
+    def __ge__(self, o): return self._cmp(o, z3.fpGEQ)
+    def __eq__(self, o):
+        try:
+            return self._cmp(o, z3.fpEQ)
+        except Unsupported:
+            return False
+    def __ne__(self, o): return not self.__eq__(o)
+    __hash__ = None
+
+    def __bool__(self):
+        return not branch(z3.fpIsZero(self.z))
+
+    def to_int(self):
+        """int(x): truncation towards zero; values are assumed within ±2**62 (date code never goes near)"""
+        lim = z3.FPVal(float(2 ** 62), SFloat.F)       # (excludes NaN and the infinities as well)
+        add(z3.And(z3.fpLT(self.z, lim), z3.fpGT(self.z, z3.fpNeg(lim))))
+        return mkint(z3.BV2Int(z3.fpToSBV(z3.RTZ(), self.z, z3.BitVecSort(64)), True))
+
+    def __int__(self):
+        raise Unsupported("int() of a symbolic float outside instrumented code")
+
+    def __float__(self):
+        raise Unsupported("float() realisation of a symbolic float")
+
+    def __repr__(self):
+        return "SFloat(%s)" % z3.simplify(self.z)
+
+
 def mkint(z):
     if isinstance(z, int):
         return z
